@@ -1,9 +1,66 @@
-(** * C04 — a utility ranking is exactly the order of the utilities (property theorems only) *)
-From Coq Require Import List Permutation.
-From RDM Require Import Base.Num Base.Util Model.Data Model.Rank Proofs.SortFacts.
+(** * C04 — a utility ranking is exactly the order of the utilities.
+    Property theorems only; each is closed by [exact] of a lemma of Proofs/RankFacts.v.
+    Carrier: any [Num] with [OrdLaws] (holds for exact rationals; see DESIGN.md §3.1 for binary64). *)
+From Coq Require Import List Permutation String Relations QArith Qcanon.
+From RDM Require Import Base.Num Base.NumQc Base.Util Model.Data Model.Rank Check.C04 Proofs.RankFacts.
 Import ListNotations.
 
-Theorem C04_placeholder_sorted_is_permutation :
-  forall {N : Num} (l : list scored), Permutation (isort rank_lt (rounded l)) (rounded l).
-Proof. intros. exact (isort_perm rank_lt (rounded l)). Qed.
-Print Assumptions C04_placeholder_sorted_is_permutation.
+Section C04.
+  Context {N : Num} {L : OrdLaws N}.
+
+  (** the result lists exactly the alternatives it was given *)
+  Theorem C04_same_alternatives : forall l, Permutation (map eid (ranking l)) (ids l).
+  Proof. exact ranking_ids_perm. Qed.
+
+  (** ordered by non-increasing (rounded) value, equal values by ascending id *)
+  Theorem C04_sorted : forall l, okl l -> NoDup (ids l) -> sorted_by before (ranking l) = true.
+  Proof. exact ranking_sorted. Qed.
+
+  (** betterThanOrSameAs = the other alternatives with the same value + all alternatives holding
+      the next lower distinct value ([links_spec] is the order-independent characterisation) *)
+  Theorem C04_links_exact : forall l e, okl l -> NoDup (ids l) -> In e (ranking l) ->
+      e_links e = links_spec (ranking l) e.
+  Proof. exact ranking_links_exact. Qed.
+
+  (** following the links from an entry reaches precisely the alternatives whose value is not higher *)
+  Theorem C04_links_reach : forall l e x, okl l -> NoDup (ids l) -> In e (ranking l) -> In x (ranking l) ->
+      (clos_refl_trans entry (fun a b => In a (ranking l) /\ In b (ranking l) /\ In (eid b) (e_links a)) e x
+       <-> nleb (val x) (val e) = true).
+  Proof. exact links_reach. Qed.
+
+  (** value, position and links do not depend on the order in which alternatives are listed *)
+  Theorem C04_listing_order : forall l l', okl l -> NoDup (ids l) -> Permutation l l' -> ranking l = ranking l'.
+  Proof. exact ranking_perm_invariant. Qed.
+
+  (** the model satisfies the boolean checker that is evaluated on the implementation's output *)
+  Theorem C04_model_passes_checker : forall l, okl l -> NoDup (ids l) -> C04_ok (ranking l) = true.
+  Proof. exact ranking_C04_ok. Qed.
+
+  (** and the checker is sound for the specification *)
+  Theorem C04_checker_sound : forall obs, C04_ok obs = true ->
+      (forall e, In e obs -> exists v, e_eval e = EValue v) /\ sorted_by before obs = true /\
+      (forall e, In e obs -> e_links e = links_spec obs e).
+  Proof. exact C04_ok_sound. Qed.
+End C04.
+
+Print Assumptions C04_same_alternatives.
+Print Assumptions C04_sorted.
+Print Assumptions C04_links_exact.
+Print Assumptions C04_links_reach.
+Print Assumptions C04_listing_order.
+Print Assumptions C04_model_passes_checker.
+Print Assumptions C04_checker_sound.
+
+(** non-vacuity: a concrete tie pattern (two equal values, then two equal lower values, one lowest)
+    meets the hypotheses on the rational instance, and the checker accepts the model's output *)
+Definition ex_items : list (@scored NumQc) :=
+  map (fun p => ({| a_id := fst p; a_vals := [] |}, snd p))
+      [("a"%string, Q2Qc 2); ("b"%string, Q2Qc 1); ("c"%string, Q2Qc 2); ("d"%string, Q2Qc 1); ("e"%string, Q2Qc 0)].
+Example C04_nonvacuous :
+  NoDup (ids ex_items) /\ C04_ok (ranking ex_items) = true
+  /\ map eid (ranking ex_items) = ["a"; "c"; "b"; "d"; "e"]%string
+  /\ map (@e_links NumQc) (ranking ex_items) = [["c"; "b"; "d"]; ["a"; "b"; "d"]; ["d"; "e"]; ["b"; "e"]; []]%string.
+Proof.
+  split; [|vm_compute; auto].
+  repeat constructor; cbn; intuition discriminate.
+Qed.
